@@ -86,6 +86,17 @@ def run : Runner
       let head := [Bytes.tok (EncodeAddress X a), Bytes.tok (String X a), Bytes.tok (ScriptAddress X a), netBits a]
       let rs := (renderings kind net a).map fun r => decObs (DecodeAddress X r net)
       pure { model := " ".intercalate (head ++ rs), prop := propAddr kind ni net impl }
+  -- after the registration of a network with P2PKH id 5 and P2SH id 0 both ids denote both kinds: a 20-byte legacy
+  -- payload with version 0 or 5 is ambiguous; everything else decodes as before
+  | "collide", [_, net, s], _ => do
+    let ni ← nat? net
+    let net ← nets[ni]?
+    let s ← bytes? s
+    let r := DecodeAddress X s net
+    let m := match r with
+      | .ok (.legacyPkh _ 0) | .ok (.legacySh _ 5) => "err,collision"
+      | _ => decObs r
+    pure { model := m, prop := "spec" }
   | "dec", [_, net, s], impl => do
     let ni ← nat? net
     let net ← nets[ni]?
